@@ -313,6 +313,21 @@ func init() {
 			return nil, 1
 		}
 	}
+	intrinsics[zz+"Override"] = func(x *Exec, st *State, fr *Frame, fn *ssa.Function, a []Value) (Value, int) {
+		name := x.concStr(a[0], "Override name")
+		iv := a[1].(IfaceV)
+		if iv.typ == nil {
+			delete(st.ghost, "$override:"+name)
+		} else {
+			f, ok := iv.val.(*FuncV)
+			if !ok || f == nil {
+				panic(x.unsupported("Override needs a function value"))
+			}
+			st.ghost["$override:"+name] = f
+		}
+		st.mutGen++
+		return nil, 1
+	}
 	intrinsics[zz+"OnYield"] = func(x *Exec, st *State, fr *Frame, fn *ssa.Function, a []Value) (Value, int) {
 		f := a[0].(*FuncV)
 		if f == nil {
